@@ -471,6 +471,9 @@ func (a *c35ActorState) note(kind string, code int, err error) {
 	k := kind + ":"
 	if err != nil {
 		k += "err"
+		if os.Getenv("VERIF_C35_DEBUG") != "" {
+			fmt.Fprintln(os.Stderr, "http error:", kind, err)
+		}
 	} else {
 		k += strconv.Itoa(code)
 	}
@@ -478,22 +481,48 @@ func (a *c35ActorState) note(kind string, code int, err error) {
 }
 
 func (a *c35ActorState) do(kind, method, url string, hdr map[string]string, body []byte) {
+	code, err := c35Request(a.w.client, method, url, hdr, body)
+	a.note(kind, code, err)
+}
+
+func c35Request(client *http.Client, method, url string, hdr map[string]string, body []byte) (int, error) {
 	req, err := http.NewRequest(method, url, bytes.NewReader(body))
 	if err != nil {
-		a.note(kind, 0, err)
-		return
+		return 0, err
 	}
 	for k, v := range hdr {
 		req.Header.Set(k, v)
 	}
-	resp, err := a.w.client.Do(req)
+	resp, err := client.Do(req)
 	if err != nil {
-		a.note(kind, 0, err)
-		return
+		return 0, err
 	}
 	io.Copy(io.Discard, resp.Body)
 	resp.Body.Close()
-	a.note(kind, resp.StatusCode, nil)
+	return resp.StatusCode, nil
+}
+
+// burst sends n requests concurrently (a client with several connections) and
+// records the outcomes afterwards in the actor's own maps.
+func (a *c35ActorState) burst(kind, url string, hdr map[string]string, bodies [][]byte) {
+	type out struct {
+		code int
+		err  error
+	}
+	res := make([]out, len(bodies))
+	var wg sync.WaitGroup
+	for i := range bodies {
+		wg.Add(1)
+		go func(i int) {
+			defer wg.Done()
+			c, e := c35Request(a.w.client, "POST", url, hdr, bodies[i])
+			res[i] = out{c, e}
+		}(i)
+	}
+	wg.Wait()
+	for _, o := range res {
+		a.note(kind, o.code, o.err)
+	}
 }
 
 func (a *c35ActorState) traceID(own bool, k int) string {
@@ -502,6 +531,8 @@ func (a *c35ActorState) traceID(own bool, k int) string {
 	}
 	return a.w.foreignIDs[(a.id*7+a.n+k)%len(a.w.foreignIDs)]
 }
+
+var c35BatchSizes = []int{1, 2, 3, 5, 8, 13, 21, 34, 55}
 
 var c35Services = []string{"users", "cart", "checkout", "healthz"}
 
@@ -609,8 +640,16 @@ func (a *c35ActorState) exec(op c35Op) {
 	ds := []string{"ds0", "ds1", "ds2"}[op.Arg%3]
 	switch op.Kind {
 	case c35BatchOwn, c35BatchForeig, c35BatchMixed:
-		body, ct := a.batchBody(op.Kind, 1+op.Arg%9, op.Arg%2 == 1)
-		a.do(op.Kind, "POST", in+"/1/batch/"+ds, map[string]string{"X-Honeycomb-Team": key, "Content-Type": ct}, body)
+		nburst := []int{1, 1, 2, 4}[(op.Arg>>2)&3]
+		var bodies [][]byte
+		var ct string
+		for i := 0; i < nburst; i++ {
+			var body []byte
+			body, ct = a.batchBody(op.Kind, c35BatchSizes[op.Arg%len(c35BatchSizes)], op.Arg%2 == 1)
+			bodies = append(bodies, body)
+			a.n++
+		}
+		a.burst(op.Kind, in+"/1/batch/"+ds, map[string]string{"X-Honeycomb-Team": key, "Content-Type": ct}, bodies)
 	case c35Event:
 		own := op.Arg%2 == 0
 		b, _ := json.Marshal(a.spanData(a.traceID(own, 0), 0, op.Arg%3 == 0))
@@ -625,7 +664,7 @@ func (a *c35ActorState) exec(op c35Op) {
 		if op.Arg%5 == 4 {
 			kind = c35BatchMixed
 		}
-		body, ct := a.batchBody(kind, 1+op.Arg%9, op.Arg%4 != 0)
+		body, ct := a.batchBody(kind, c35BatchSizes[op.Arg%len(c35BatchSizes)], op.Arg%4 != 0)
 		a.do(op.Kind, "POST", pr+"/1/batch/"+ds, map[string]string{"X-Honeycomb-Team": key, "Content-Type": ct}, body)
 	case c35Query:
 		hdr := map[string]string{"X-Honeycomb-Refinery-Query": c35QueryTok}
@@ -657,7 +696,10 @@ func (a *c35ActorState) exec(op c35Op) {
 		default:
 			err = w.files.setStress([]string{"always", "never", "monitor"}[op.Arg%3])
 		}
-		if err == nil {
+		// Arg bit 3: only rewrite the file and let the app's own ConfigWatcher pick
+		// it up (both racing goroutines are then refinery's own); otherwise
+		// call Reload() like the watcher's ticker / pubsub listener / OpAMP agent do.
+		if err == nil && !(op.Arg&8 != 0 && w.sc.ReloadMs > 0) {
 			err = w.cfg.Reload()
 		}
 		if err != nil {
@@ -714,7 +756,9 @@ func c35RunScenario(sc c35Scenario, dir string) c35ChildSummary {
 		sum.SetupFailed = err.Error()
 		return sum
 	}
+	sum.BuildMs = time.Since(t0).Milliseconds()
 	deadline := time.Now().Add(time.Duration(sc.DurationMs) * time.Millisecond)
+	hardLimit := time.Now().Add(3 * time.Duration(sc.DurationMs) * time.Millisecond)
 	var wg sync.WaitGroup
 	states := make([]*c35ActorState, len(sc.Actors))
 	for i, act := range sc.Actors {
@@ -726,20 +770,29 @@ func c35RunScenario(sc c35Scenario, dir string) c35ChildSummary {
 		wg.Add(1)
 		go func(ops []c35Op) {
 			defer wg.Done()
-			for {
+			// The script is repeated until the deadline, but every op of it is
+			// executed at least once even on a slow (loaded) machine, up to a
+			// hard limit of 3x the nominal duration.
+			for pass := 0; ; pass++ {
 				for _, op := range ops {
 					if op.ThinkUs > 0 {
 						time.Sleep(time.Duration(op.ThinkUs) * time.Microsecond)
 					}
-					if w.stopped.Load() || time.Now().After(deadline) {
+					now := time.Now()
+					if w.stopped.Load() || now.After(hardLimit) || (pass > 0 && now.After(deadline)) {
 						return
 					}
+					t1 := time.Now()
 					st.exec(op)
+					if d := time.Since(t1); d > 300*time.Millisecond && os.Getenv("VERIF_C35_DEBUG") != "" {
+						fmt.Fprintf(os.Stderr, "slow op: actor %d %s took %v (at +%v)\n", st.id, op.Kind, d, time.Since(t0))
+					}
 				}
 			}
 		}(act.Ops)
 	}
 	wg.Wait()
+	sum.ActorsMs = time.Since(t0).Milliseconds()
 	// orderly end: stop the app if the scenario did not
 	if w.stopping.CompareAndSwap(false, true) {
 		w.life.Lock()
